@@ -4,7 +4,7 @@
    duplicate removal, alias table, back references), tied to aldy.gene.Gene by harness/c09.py on all 38 x 2 shipped and on
    generated databases.
    Proved for every database (no bound):
-     C09_minor_distinct, C09_config_exists (+ the boolean clause p_config_exists), C09_names_unique, C09_core_split (+ p_core_split: through
+     C09_minor_distinct, C09_config_exists (+ the boolean clause p_config_exists), C09_names_unique, C09_partials_retained, C09_core_split (+ p_core_split: through
      grouping, naming, the partial alleles of every left fusion and duplicate removal) — about every catalogue [load] returns;
      C09_partition_partial / major-distinct at the grouping step, C09_alias_sound, C09_core_split_one_allele,
      C09_partial_content_partial — about the step of the construction that establishes the clause.
@@ -103,6 +103,20 @@ Proof. exact partial_content_partial. Qed.
 Goal True. idtac "ASSUME C09_partial_content_partial". Abort.
 Print Assumptions C09_partial_content_partial.
 
+(* ... and for EVERY catalogue the loader returns: a major allele is either made of database alleles (no '#' in the name of any
+   of its minor alleles) or - the partial alleles built for the left fusions, merged or new, after duplicate removal - every one
+   of its variants, core and minor, lies in a region in which its own structural configuration has a positive copy number
+   (the "only variants in regions the fusion retains" half of the clause; the other half, "all of the parent's variants there",
+   is C09_partial_content_partial).  Side condition: no database allele name contains '#' (hash_free; evaluated by the harness) *)
+Theorem C09_partials_retained : forall t al db c, load t al db = Some c -> hash_free db = true ->
+  forall kv, In kv (cat_alleles c) ->
+    (forall m, In m (ma_minors (snd kv)) -> has_char 35 (mi_name m) = false) \/
+    ((forall x, In x (ma_core (snd kv)) -> retained (cat_regions c) (cat_cfgs c) (ma_cfg (snd kv)) x = true) /\
+     (forall m x, In m (ma_minors (snd kv)) -> In x (mi_muts m) -> retained (cat_regions c) (cat_cfgs c) (ma_cfg (snd kv)) x = true)).
+Proof. exact load_partials_retained. Qed.
+Goal True. idtac "ASSUME C09_partials_retained". Abort.
+Print Assumptions C09_partials_retained.
+
 (* ---- non-vacuity: a database with a duplicate, a left fusion and a deletion loads, and every clause holds on it ---- *)
 Definition ex_al : align := {| a_plus := true; a_len := 100; a_start := 1001; a_end := 1101; a_cigar := [(CM, 100)] |}.
 Definition ex_db : rawdb := {|
@@ -119,6 +133,8 @@ Definition ex_db : rawdb := {|
        ra_entries := [(PInt 20, s "insTT", [Some (s "-"); Some (s "frameshift")]); (PInt 15, s "A>G", [])] |};
     {| ra_key := s "T*4.001"; ra_label := None; ra_ignored := false; ra_entries := [(PStr (s "TP"), s "i1-", [])] |};
     {| ra_key := s "T*5.001"; ra_label := None; ra_ignored := false; ra_entries := [(PStr (s "T"), s "deletion", [])] |}] |}.
+Example C09_ex_hash_free : hash_free ex_db = true.
+Proof. vm_compute. reflexivity. Qed.
 Example C09_ex_loads :
   match load std_tab ex_al ex_db with
   | Some c => map ma_name (majors c) = [s "1"; s "2"; s "3"; s "5"; s "4#1"; s "4#2"]
